@@ -273,6 +273,7 @@ def run(res: Results, idx: Index, tier: str) -> None:
     rule_e(res, idx)
     rule_f(res, idx)
     rule_g(res, idx)
+    rule_h(res, idx)
     vf = idx.func(PS, "FunctionPlugin._value_fingerprint")
     key = f"{PS}::FunctionPlugin._value_fingerprint::content"
     rets = [r for r in walk_no_nested(vf.node) if isinstance(r, ast.Return) and isinstance(r.value, ast.Tuple)]
@@ -569,3 +570,32 @@ def rule_g(res: Results, idx: Index) -> None:
                           f"{missing} (a Python scalar and a float32 scalar of the same value) share one function body and one of them gets the other's result type", f.qualname)
         else:
             res.ok("R-C07g", f"{PS}:{apps[0].lineno}", key, f"input signature records {sorted(key_fields)}, specs use {sorted(spec_fields)}", f.qualname)
+
+
+# ---------------------------------------------------------------------------------------------- R-C07h
+def rule_h(res: Results, idx: Index) -> None:
+    """`input_params` are traced as constants and become named graph inputs.  A keyword argument of an @onnx_function call is
+    connected to such a graph input when its NAME is a parameter name.  The name alone does not say that the value IS the
+    parameter: `blk(x, scale=scale + 1.0)` passes 3.0 under the name `scale`.  The branch that wires a keyword to the graph
+    input by name (`force_external`) must also compare the passed value with the declared parameter value."""
+    res.rule("R-C07h", "a keyword is wired to an input_params graph input only when its value is the parameter itself, not merely because of its name", floor=1)
+    f = idx.func(PS, "FunctionPlugin._lower_and_call")
+    key = f"{PS}::FunctionPlugin._lower_and_call::call-param-by-name"
+    branches = [st for st in walk_no_nested(f.node) if isinstance(st, ast.If) and any(isinstance(c, ast.Compare) and isinstance(c.ops[0], ast.In) and "call_param_names" in src(c.comparators[0], 40) for c in ast.walk(st.test))
+                and any(isinstance(k, ast.Constant) and k.value == "force_external" for b in st.body for k in ast.walk(b))]
+    if not branches:
+        res.unresolved("R-C07h", f.site, key, "the branch that wires a keyword to a call-parameter input by name was not found", f.qualname)
+        return
+    for st in branches:
+        pn = next((c.left.id for c in ast.walk(st.test) if isinstance(c, ast.Compare) and isinstance(c.ops[0], ast.In) and isinstance(c.left, ast.Name) and "call_param_names" in src(c.comparators[0], 40)), None)
+        value_checked = None
+        for c in ast.walk(st.test):
+            if isinstance(c, ast.Call) and pn and any(isinstance(a, ast.Name) and a.id == pn for a in c.args) and any(isinstance(a, ast.Name) and a.id != pn and a.id not in ("ctx", "self") for a in c.args):
+                value_checked = c
+            if isinstance(c, ast.Compare) and any("literal" in src(x, 60) for x in [c.left] + list(c.comparators)):
+                value_checked = c
+        if value_checked is not None:
+            res.ok("R-C07h", f"{PS}:{st.lineno}", key, f"the by-name wiring is taken only when `{src(value_checked, 60)}` holds for the passed value", f.qualname)
+        else:
+            res.violation("R-C07h", f"{PS}:{st.lineno}", key, f"`{src(st.test, 60)}` connects the keyword to the graph input because of its name alone: a derived value passed under a parameter's name "
+                          "(`scale=scale + 1.0`) is replaced by the parameter itself and the model computes with the wrong value", f.qualname)
